@@ -214,6 +214,11 @@ theorem stepCmd_u (sc : Scripts) {w : World} (hr : Rest w) (hs : Sim false w) (h
     have hs1 : Sim false { w with giver := liveGiver w (some g) } := SimJ.congr (w := w) hs rfl rfl rfl rfl rfl
     have hu1 : UInv 0 { w with giver := liveGiver w (some g) } := hu.congr rfl rfl rfl (Nat.le_refl _)
     exact (applyOp_u hr1 hs1 hu1 self op).congr rfl rfl rfl (Nat.le_refl _)
+  | setUnique n =>
+    show UInv 0 (if n > w.unique then { w with unique := n } else w)
+    split
+    · exact hu.congr rfl rfl rfl (Nat.le_refl _)
+    · exact hu
 
 theorem init_u : UInv 0 World.init :=
   ⟨rfl, by decide, by decide, by decide, rfl⟩
